@@ -274,6 +274,18 @@ impl Net {
         }
     }
 
+    pub fn set_caps(&self, d: usize, inflight_cap: usize, rbuf_cap: usize) {
+        let mut n = self.lock();
+        n.dirs[d].inflight_cap = inflight_cap.max(1);
+        n.dirs[d].rbuf_cap = rbuf_cap.max(1);
+    }
+
+    /// Is the writer of direction `d` blocked by back-pressure right now?
+    pub fn writer_blocked(&self, d: usize) -> bool {
+        let n = self.lock();
+        n.dirs[d].writer_waker.is_some() && n.dirs[d].inflight.len() >= n.dirs[d].inflight_cap
+    }
+
     pub fn tap_len(&self, d: usize) -> usize {
         self.lock().dirs[d].tap.len()
     }
